@@ -31,6 +31,7 @@ const (
 	probeVisitorAbort
 	probeC11OpFault
 	probeCallbackAbort
+	probePoolRenewed
 )
 
 var probeNames = map[int]string{
@@ -39,6 +40,7 @@ var probeNames = map[int]string{
 	probeDumperPanicTaken: "dumper_write_error_panic_taken", probePrinterContinued: "printer_continued_after_write_error",
 	probeBlockBoundary: "pool_block_boundary_crossed", probeNondetReference: "nondeterministic_reference",
 	probeErrCallback: "error_callback_fired", probeVisitorAbort: "visitor_abort_fired", probeC11OpFault: "operation_aborted_by_writer_fault_or_visitor_abort", probeCallbackAbort: "parse_aborted_by_panicking_error_callback",
+	probePoolRenewed: "pool_dropped_and_replaced_while_objects_kept",
 }
 
 var (
